@@ -75,16 +75,6 @@ fn failing_calls_n<const N: usize>() {
         let _ = b.merge(&a, 0, 10);
         let _ = b.merge(&a, 7, 13);
     });
-    // slice_some: the predicate gives up after two edges
-    let _ = guarded(|| {
-        let a = build();
-        let seen = std::cell::Cell::new(0);
-        let _ = a.slice_some(10, |_, _, _| {
-            seen.set(seen.get() + 1);
-            assert!(seen.get() < 3, "predicate gives up");
-            true
-        });
-    });
     // slice / inspect / v_print / kids / data on an id beyond the capacity or absent
     let small = || {
         let mut s: Sodg<N> = Sodg::empty(4);
@@ -107,6 +97,16 @@ fn failing_calls_n<const N: usize>() {
     let _ = guarded(|| small().add(300));
     let _ = guarded(|| small().bind(0, 300, lab(1)));
     let _ = guarded(|| small().bind(0, 0, lab(1)));
+    // slice_some: the predicate gives up after two edges (the last slice of this function: nothing after it cleans up)
+    let _ = guarded(|| {
+        let a = build();
+        let seen = std::cell::Cell::new(0);
+        let _ = a.slice_some(10, |_, _, _| {
+            seen.set(seen.get() + 1);
+            assert!(seen.get() < 3, "predicate gives up");
+            true
+        });
+    });
     // the (N+1)-th label, next_id() on a full graph
     let _ = guarded(|| {
         let mut s: Sodg<N> = Sodg::empty(N + 3);
@@ -120,9 +120,10 @@ fn failing_calls_n<const N: usize>() {
     });
     // Hex: a malformed operand (inline length 9), conversions of the wrong length, bad texts
     let bad = Hex::Bytes([0xAA; 8], 9);
-    let _ = guarded(|| Hex::from_slice(&[0x11; 8]).concat(&bad).len());
-    let _ = guarded(|| Hex::from_slice(&[0x11; 12]).concat(&bad).len());
     let _ = guarded(|| bad.concat(&Hex::from_slice(&[0x22; 8])).len());
+    let _ = guarded(|| Hex::from_slice(&[0x11; 12]).concat(&bad).len());
+    let _ = guarded(|| Hex::from_slice(&[0x11; 3]).concat(&bad).len());
+    let _ = guarded(|| Hex::from_slice(&[0x11; 8]).concat(&bad).len());
     let _ = guarded(|| Hex::from_slice(&[1, 2, 3]).to_i64().is_ok());
     let _ = guarded(|| Hex::from_slice(&[1, 2, 3, 4, 5, 6, 7, 8, 9]).to_f64().is_ok());
     let _ = guarded(|| Hex::from_slice(&[0xFF, 0xFE]).to_utf8().is_ok());
@@ -143,23 +144,23 @@ fn failing_calls_n<const N: usize>() {
         let _ = sodg::Script::from_str("ADD($x); BIND(0, $x, foo); FOO($x);").deploy_to(&mut c);
         let _ = sodg::Script::from_str("ADD(5); PUT(5, zz);").deploy_to(&mut c);
     });
-    // save into a directory that does not exist; load of garbage, of an empty and of a missing file
+    // load of garbage, of an empty file, of a cut image and of a missing file; then, last, a save into
+    // a directory that does not exist (no successful save or load comes after the failing ones)
     let _ = guarded(|| {
         let a = build();
-        let _ = a.save(&thread_file("no-such-dir").join("x").join("image"));
         let f = thread_file("garbage");
-        let _ = std::fs::write(&f, [0x10u8, 0, 0, 0, 0, 0, 0, 0, 0x07, 0x07, 0x07]);
-        let _ = Sodg::<N>::load(&f).map(|g| g.len());
-        let _ = std::fs::write(&f, []);
-        let _ = Sodg::<N>::load(&f).map(|g| g.len());
-        // a complete image cut in the middle
         if let Ok(n) = a.save(&f) {
             if let Ok(file) = std::fs::OpenOptions::new().write(true).open(&f) {
                 let _ = file.set_len(n as u64 / 2);
             }
             let _ = Sodg::<N>::load(&f).map(|g| g.len());
         }
+        let _ = std::fs::write(&f, [0x10u8, 0, 0, 0, 0, 0, 0, 0, 0x07, 0x07, 0x07]);
+        let _ = Sodg::<N>::load(&f).map(|g| g.len());
+        let _ = std::fs::write(&f, []);
+        let _ = Sodg::<N>::load(&f).map(|g| g.len());
         let _ = std::fs::remove_file(&f);
         let _ = Sodg::<N>::load(&thread_file("no-such-file")).map(|g| g.len());
+        let _ = a.save(&thread_file("no-such-dir").join("x").join("image"));
     });
 }
